@@ -19,6 +19,7 @@ RULE = ("Hypothesis-generated scenarios: a controller A (time-based/hybrid) with
         "refused calls fail with ScenarioError (remote: RemoteException of that type) and leave no effect. "
         "non-trivial = (>= 2 agents or an agent stepping more often than A) with a set_data delivered and a "
         "non-FIFO release; distinct = distinct case hashes")
+RULE += '; set_data values are strings, JSON objects with changing key sets or lists'
 ASSUMPTIONS = [
     "values returned by asynchronous get_data are recorded, not judged (the statement is silent)",
     "a set_data value counts from the moment the call returned to the agent",
